@@ -45,15 +45,20 @@ def norm(line):
     return FRESH_RE.sub("", line).strip()
 
 
-def run_impl(flavour, ops_text, timeout=300, wrapper=None, scratch=None):
+def run_impl(flavour, ops_text, timeout=300, wrapper=None, scratch=None, reuse=False):
     d = scratch or os.path.join(C.scratch_root(), f"s{next(_counter)}")
-    shutil.rmtree(d, ignore_errors=True)
+    if not reuse:
+        shutil.rmtree(d, ignore_errors=True)
     cmd = [C.drive_bin(flavour), d]
     if wrapper:
         cmd = wrapper + cmd
+    env = dict(os.environ)
+    env.pop("DRIVE_REUSE", None)
+    if reuse:
+        env["DRIVE_REUSE"] = "1"
     try:
         p = subprocess.run(cmd, input=ops_text.encode(), stdout=subprocess.PIPE, stderr=subprocess.PIPE,
-                           timeout=timeout, cwd=C.scratch_root())
+                           timeout=timeout, cwd=C.scratch_root(), env=env)
         out = p.stdout.decode(errors="replace").splitlines()
         rc = p.returncode
     except subprocess.TimeoutExpired as e:
